@@ -350,6 +350,24 @@ impl C11 {
     fn versions(&self, ctx: &mut Ctx, idx: u64, rng: &mut Rng) {
         let s: String = if (idx as usize) < VERSION_STRINGS.len() {
             VERSION_STRINGS[idx as usize].to_string()
+        } else if idx % 2 == 0 {
+            // long names of mixed character widths: total byte length on and around powers of two, so that
+            // any byte offset a length bound might cut at falls inside a multi-byte character for some of them
+            ctx.count("versions/long-mixed-width");
+            let target = *rng.pick(&[31usize, 32, 63, 64, 65, 127, 128, 129, 200, 255, 256, 257, 511, 512, 513, 1023, 1024, 1025, 4095, 4096, 4097, 70_000]) + rng.usize(4);
+            let alphabet: &[&str] = match rng.below(5) {
+                0 => &["€"],
+                1 => &["日", "a"],
+                2 => &["é", "a"],
+                3 => &["𝄞", "a", "é"],
+                _ => &["a", "é", "€", "𝄞", "v", "1", "0"],
+            };
+            let mut out = String::from(*rng.pick(&["", "", "v1beta0", "v1alpha8", "v", "a"]));
+            while out.len() < target {
+                let piece: &str = *rng.pick(alphabet);
+                out.push_str(piece);
+            }
+            out
         } else {
             // random near-misses of the accepted string
             let mut b = "v1beta0".as_bytes().to_vec();
@@ -386,7 +404,7 @@ impl C11 {
                 Ok(Ok(_)) => ctx.violation(format!("version-gate:{via}"), json!({"version": s, "what": "decoding succeeded for a version other than v1beta0"})),
                 Ok(Err(_)) if s == "v1beta0" => ctx.violation(format!("version-gate:{via}:current-rejected"), json!({"version": s})),
                 Ok(Err(_)) => ctx.count("versions/rejected"),
-                Err(p) => ctx.violation(format!("version-{}", p.signature()), json!({"version": s, "message": p.message})),
+                Err(p) => ctx.violation(format!("version-{}", p.signature()), json!({"version_prefix": s.chars().take(200).collect::<String>(), "version_bytes": s.len(), "message": p.message})),
             }
         }
         if idx < 3 {
@@ -401,7 +419,7 @@ impl Property for C11 {
     }
 
     fn rule(&self) -> String {
-        "trees: random tir::Tx values (every Expression / Param / BuiltInOp / CompilerOp / Coerce / ScriptSource-free block variant, depth <= 6, ints over the i128 boundary set, usize::MAX constructors, byte strings 0..3000, UTxO sets with datums); lowered: every tx of every example program and of generated programs; hostile: 12 mutation kinds of valid encodings (random, bit flips, truncation, splice, length lies, nesting bombs to 1e5, valid deep lists to 1000, 11 kinds of expression wrapper nested 50..100000 deep in a typed position (raw bytes) - all nested inputs decoded on a 2 MiB thread, and once more by an unoptimised (dev-profile) probe binary on a 2 MiB thread, overwrites, duplications, bad utf-8, wrong major types, foreign values); versions: fixed list + random near-misses of 'v1beta0', direct and through TirEnvelope. Non-trivial: a tree whose serialisation uses >= 6 distinct IR variants / a distinct hostile byte string / a distinct version string.".into()
+        "trees: random tir::Tx values (every Expression / Param / BuiltInOp / CompilerOp / Coerce / ScriptSource-free block variant, depth <= 6, ints over the i128 boundary set, usize::MAX constructors, byte strings 0..3000, UTxO sets with datums); lowered: every tx of every example program and of generated programs; hostile: 12 mutation kinds of valid encodings (random, bit flips, truncation, splice, length lies, nesting bombs to 1e5, valid deep lists to 1000, 11 kinds of expression wrapper nested 50..100000 deep in a typed position (raw bytes) - all nested inputs decoded on a 2 MiB thread, and once more by an unoptimised (dev-profile) probe binary on a 2 MiB thread, overwrites, duplications, bad utf-8, wrong major types, foreign values); versions: fixed list + random near-misses of 'v1beta0' + names of 31..70000 bytes mixing 1/2/3/4-byte characters with byte lengths on and around powers of two, direct and through TirEnvelope. Non-trivial: a tree whose serialisation uses >= 6 distinct IR variants / a distinct hostile byte string / a distinct version string.".into()
     }
 
     fn assumptions(&self) -> Vec<String> {
@@ -425,7 +443,7 @@ impl Property for C11 {
             Phase::new("examples", 80, Profile::Release),
             Phase::new("lowered", lowered, Profile::Release),
             Phase::new("hostile", hostile, Profile::Checked),
-            Phase::new("versions", VERSION_STRINGS.len() as u64 + 200, Profile::Release).exhaustive(),
+            Phase::new("versions", VERSION_STRINGS.len() as u64 + 800, Profile::Release).exhaustive(),
         ];
         if tier == Tier::Thorough {
             v.push(Phase::new("hostile-release", hostile / 4, Profile::Release));
@@ -450,6 +468,7 @@ impl Property for C11 {
         v.push("examples/lowered-tx".into());
         v.push("hostile/err".into());
         v.push("versions/rejected".into());
+        v.push("versions/long-mixed-width".into());
         v.push("versions/accepted-current".into());
         v
     }
